@@ -151,3 +151,15 @@ def in_set(x, xs):
 
 def set_eq(xs, ys):
     return b_and(*([in_set(x, ys) for x in xs] + [in_set(y, xs) for y in ys]))
+
+
+def within(a, b, tol):
+    """|a-b| <= tol as bool | z3 Bool; the difference is first normalised to a sum of monomials, so identities that hold
+    by polynomial algebra are decided without the solver"""
+    d = r_sub(a, b)
+    if isinstance(d, Fraction):
+        return abs(d) <= tol
+    d = z3.simplify(d, som=True)
+    if z3.is_rational_value(d):
+        return abs(Fraction(d.numerator_as_long(), d.denominator_as_long())) <= tol
+    return z3.And(d <= z3real(tol), -d <= z3real(tol))
